@@ -593,6 +593,15 @@ class R:
         lines += ["            _ => return None,", "        })", "    }", "}"]
         return lines
 
+    def alt_concretes(self):
+        return {g["name"]: ("bool" if g["concrete"] == "svmon::Pt" else "svmon::Pt") for g in self.p.get("generics", [])}
+
+    def alt_spelling(self, t):
+        """The type as the contract impl spells it, with every type parameter replaced by its alternative concrete type."""
+        import re
+        alt = self.alt_concretes()
+        return re.sub(r"(?<![:\w])(" + "|".join(map(re.escape, alt)) + r")\b", lambda m: alt[m.group(1)], t.rust) if alt else t.concrete
+
     def entry_point_kinds(self):
         p = self.p
         ks = ["instantiate", "exec", "query", "sudo"]
@@ -710,6 +719,13 @@ class R:
             arm(f"schemas:{part['id']}", f"schemas::<{self.msg_path(part, 'query')}>()")
             arm(f"schema_for:{part['id']}", f"schema_json::<{self.msg_path(part, 'query')}>()")
         arm("schemas:w", f"schemas::<{self.wrap_path('query')}>()")
+        if self.gnames:
+            # a second instantiation of the same generic contract in the same process (C16: every instantiation has its own table)
+            alt = self.alt_concretes()
+            lt = ["'static"] if p.get("lifetime") else []
+            arm("schemas:w:alt", f"schemas::<sv::ContractQueryMsg::<{', '.join(lt + [alt[n] for n in self.gnames])}>>()")
+            for i, t in enumerate(p["types"]):
+                arm(f"schema_ty_alt:{i}", f"cw_schema_json::<{self.alt_spelling(t)}>()")
         for kind in KINDS_ENUM:
             arm(f"schema_for:w:{kind}", f"schema_json::<{self.wrap_path(kind)}>()")
             for part in p["parts"]:
